@@ -249,3 +249,63 @@ def run(ck, prog):
     _run_pre_negcast(ck, prog)
     from sa import negcast
     negcast.run_rule(ck, prog, set(DIMENSION_FILES))
+
+
+# ------------------------------------------------------------------ F-beta: the harmonic-mean denominator is tested before the division
+_run_pre_fbeta = run
+
+
+def fbeta_zero_denominator(ck, prog):
+    """'F-beta follow[s] from the binary confusion counts': with tp = 0 and fp, fn > 0 the counts give F = 0, precision and
+    recall are both 0, and the harmonic-mean form (1+b^2) p r / (b^2 p + r) divides 0 by 0. A division whose denominator is
+    built from both the precision and the recall result therefore has to sit behind a zero test of that denominator (or of
+    its two summands), or F has to be computed from the counts. Guarded-division rule on F1::get_score."""
+    from sa.match import Zero
+    from sa.e1 import BodyCtx
+    from sa import guards
+    from sa.prov import subterms, render
+    rule, inst = "E2-guarded-division", "F1::get_score: b^2*p + r is tested against zero before dividing by it"
+    try:
+        b = prog.one(r"^metrics::f1::F1::<T>::get_score$")
+    except AnchorError as e:
+        ck.violation(rule, inst, "F1::get_score", "", expected="anchor exists", found=f"anchor vanished: {e}")
+        return
+    cx = BodyCtx.of(b)
+    res = cx.res
+    zero = Zero()
+    n = 0
+    for bb, t in b.calls():
+        f = t.get("f")
+        if not (f and f["path"].endswith("Div::div") and len(t["args"]) == 2):
+            continue
+        den = res.operand(t["args"][1])
+        scores = [s for s in subterms(den) if s[0] == "call" and s[1].endswith("get_score")]
+        if len(scores) < 2:
+            continue                      # not built from both precision and recall
+        n += 1
+        guarded = False
+        for c in cx.cmps:
+            for (L, R, rel) in ((c.lhs, c.rhs, c.rel), (c.rhs, c.lhs, guards.FLIP[c.rel])):
+                if not zero(R):
+                    continue
+                if L == den or (L[0] == "call" and L[1].endswith("get_score")) or any(s == den for s in subterms(L)):
+                    for er, dst, other in ((rel, c.true_bb, c.false_bb), (guards.NEG[rel], c.false_bb, c.true_bb)):
+                        if "z" not in guards.ATOMS[er] and b.dominates(dst, bb) and not b.dominates(other, bb):
+                            guarded = True
+        if guarded:
+            ck.ok(rule, inst, b.path, b.where(bb), f"division by `{render(den)[:60]}` is dominated by a non-zero edge")
+        else:
+            ck.violation(rule, inst, b.path, b.where(bb), ordinal=n,
+                         expected="a zero test of the denominator (or of precision and recall) on every path to the division",
+                         found=f"divides by `{render(den)[:80]}` unconditionally: for tp = 0 with fp, fn > 0 both scores are 0 and the result "
+                               f"is NaN where the confusion counts give F = 0")
+    if n == 0:
+        ck.note(f"{inst}: no division by a combination of two sub-scores (F computed from counts): no instance")
+
+
+def run(ck, prog):
+    _run_pre_fbeta(ck, prog)
+    fbeta_zero_denominator(ck, prog)
+
+
+EXPLANATION += (' F-beta: a division by a combination of the precision and recall results sits behind a zero test (found and fixed: NaN for tp = 0).')
